@@ -6,6 +6,7 @@ import (
 	"os"
 	"os/exec"
 	"path/filepath"
+	"runtime"
 	"strconv"
 	"strings"
 	"sync"
@@ -362,6 +363,10 @@ func c14Plans(c *core.Ctx) []c14Plan {
 
 func runC14(c *core.Ctx) {
 	intoto.VerifHook = c14Hook
+	// a quarter of the workers run single-threaded: the two pipe readers cannot run in parallel there
+	if c.Shard%4 == 0 {
+		runtime.GOMAXPROCS(1)
+	}
 	plans := c14Plans(c)
 	helper := Helper(c)
 	key := gen.Fast(Pool(c))[0]
@@ -586,7 +591,7 @@ func init() {
 	core.Register(&core.Property{
 		ID:    "C14",
 		Level: "exploration",
-		Rule: "commands `vhelper emit` with planned output: stdout x stderr sizes from {0, 1, 4095, 4096, 65535, 65536, 65537, 200000, 1 MiB (, 4 MiB thorough)} in both orders, alternating chunks of 1 / 4096 / 65537 bytes, one stream closed before the other is written, random sequences of 1-8 chunks with sizes around 4 KiB / 64 KiB / 128 KiB on either stream with optional pauses and early closes (80 quick / 3000 thorough), text (with CR, LF, TAB) and binary content, InTotoRun with line normalisation on and off, exit statuses 0..255 (16 values), death by signals 1,2,6,9,11,13,15, run directory empty or a temp dir, program given relative to the run directory; through RunCommand, InTotoRun (by-products) and the CLI `run` (by-products in the link file); unstartable and empty commands. Oracle: streams regenerated from the seed and compared byte for byte, exact exit status; hang = causal witness (a thread of the child blocked in write(2) on fd 1/2, CPU time unchanged over 3 samples, call not returned; pid from the cmd_started hook), otherwise inconclusive. " +
+		Rule: "commands `vhelper emit` with planned output: stdout x stderr sizes from {0, 1, 4095, 4096, 65535, 65536, 65537, 200000, 1 MiB (, 4 MiB thorough)} in both orders, alternating chunks of 1 / 4096 / 65537 bytes, one stream closed before the other is written, random sequences of 1-8 chunks with sizes around 4 KiB / 64 KiB / 128 KiB on either stream with optional pauses and early closes (80 quick / 3000 thorough), text (with CR, LF, TAB) and binary content, InTotoRun with line normalisation on and off, exit statuses 0..255 (16 values), death by signals 1,2,6,9,11,13,15, run directory empty or a temp dir, program given relative to the run directory; through RunCommand, InTotoRun (by-products) and the CLI `run` (by-products in the link file); unstartable and empty commands; a quarter of the workers run with GOMAXPROCS=1. Oracle: streams regenerated from the seed and compared byte for byte, exact exit status; hang = causal witness (a thread of the child blocked in write(2) on fd 1/2, CPU time unchanged over 3 samples, call not returned; pid from the cmd_started hook), otherwise inconclusive. " +
 			"non-trivial = a stream exceeds one pipe buffer (64 KiB) or a non-zero status; distinct = (via, size classes, order, exit, signal, run dir)",
 		Assumptions: []string{"Linux x86-64 /proc/<pid>/task/*/syscall is readable (we run as root)", "for death by signal only 'not reported as success' is required"},
 		Workers:     func(string) int { return 16 },
